@@ -9,12 +9,14 @@ import (
 )
 
 // lenClasses are payload-length classes around the RFC's length-form
-// boundaries (125/126, 65535/65536) plus ordinary sizes.
+// boundaries (125/126, 65535/65536) plus ordinary sizes and buffer sizes.
 type lenClass struct{ lo, hi, weight int }
 
 var dataLens = []lenClass{
 	{0, 0, 3}, {1, 1, 2}, {2, 7, 4}, {8, 40, 6}, {41, 124, 3}, {125, 125, 2}, {126, 126, 2}, {127, 300, 3},
 	{301, 1500, 2}, {4000, 4200, 1}, {65535, 65535, 1}, {65536, 65536, 1}, {65537, 70000, 1},
+	// exactly the sizes buffers tend to have (pool classes, default buffers, io.ReadAll's first chunk)
+	{128, 128, 1}, {512, 512, 1}, {4096, 4096, 1},
 }
 
 func drawLen(r *eng.Run, classes []lenClass, budget *int) int {
@@ -173,6 +175,7 @@ func GenStream(r *eng.Run, cfg StreamCfg) *Stream {
 		budget = 72 * 1024
 	}
 	nmsg := 1 + r.T.Int(sim.LNMsg, cfg.MaxMsgs)
+	manyDone := false
 	for i := 0; i < nmsg; i++ {
 		// Top-level control frames before the message.
 		if !cfg.NoCtrl {
@@ -236,6 +239,21 @@ func GenStream(r *eng.Run, cfg StreamCfg) *Stream {
 					c := drawCtrl(r, cfg, &budget)
 					s.Frames = append(s.Frames, c)
 					m.Inter = append(m.Inter, c)
+				}
+				if !manyDone && r.T.Chance(sim.LCtrl, 1, 150) {
+					// A hundred and more control frames in one gap: legal, and
+					// more than a buffered reader accepts as "nothing read, no
+					// error" answers in a row.
+					manyDone = true
+					for n, tot := 0, 99+r.T.Int(sim.LCtrl, 60); n < tot; n++ {
+						c := &ref.Frame{Fin: true, Op: []byte{ref.OpPing, ref.OpPong}[n%7%2], Payload: drawPayload(r, n%3, false)}
+						if cfg.Recv == ref.Server {
+							c.Masked, c.Mask = true, drawMask(r)
+						}
+						s.Frames = append(s.Frames, c)
+						m.Inter = append(m.Inter, c)
+					}
+					r.Probe("a_hundred_control_frames_in_one_gap")
 				}
 			}
 		}
@@ -314,7 +332,7 @@ func itoa(v int) string {
 // its payload on the wire (nil if there is none): a temporary read error in
 // there hits the Reader while it hands out message data, never while it
 // parses a header or feeds a control handler.
-func TransientIn(r *eng.Run, frames []*ref.Frame) [][2]int {
+func TransientIn(r *eng.Run, frames []*ref.Frame) (ranges [][2]int, inPayload bool) {
 	var cand []*ref.Frame
 	for _, f := range frames {
 		if !ref.IsControl(f.Op) && len(f.Payload) > 0 {
@@ -322,7 +340,7 @@ func TransientIn(r *eng.Run, frames []*ref.Frame) [][2]int {
 		}
 	}
 	if len(cand) == 0 {
-		return nil
+		return nil, false
 	}
 	// Or exactly between two frames of a fragmented message: the Read that
 	// would fetch the first header byte of a continuation frame fails and has
@@ -336,9 +354,9 @@ func TransientIn(r *eng.Run, frames []*ref.Frame) [][2]int {
 	if len(conts) > 0 && r.T.Chance(sim.LFaultAt, 1, 3) {
 		f := conts[r.T.Int(sim.LFaultAt, len(conts))]
 		r.Probe("temporary_error_between_fragments")
-		return [][2]int{{f.Off, f.Off + 1}}
+		return [][2]int{{f.Off, f.Off + 1}}, false
 	}
 	f := cand[r.T.Int(sim.LFaultAt, len(cand))]
 	from := f.HdrEnd + r.T.Int(sim.LFaultAt, f.End-f.HdrEnd)
-	return [][2]int{{from, f.End}}
+	return [][2]int{{from, f.End}}, true
 }
